@@ -6,7 +6,10 @@
 // bound (bound < 0: unbounded, plain exhaustive DFS of a finite tree).
 package explore
 
-import "fmt"
+import (
+	"fmt"
+	"strconv"
+)
 
 // Point is one recorded choice point of an execution.
 type Point struct {
@@ -19,8 +22,22 @@ type Point struct {
 // PrefixEntry is a choice to replay together with a fingerprint of the point it was taken at,
 // so that a body that is not deterministic fails loudly instead of silently exploring garbage.
 type PrefixEntry struct {
-	C int    `json:"c"`
-	H uint32 `json:"h"`
+	C int
+	H uint32
+}
+
+// compact wire form: one number, choice<<32 | fingerprint
+func (e PrefixEntry) MarshalJSON() ([]byte, error) {
+	return []byte(strconv.FormatUint(uint64(e.C)<<32|uint64(e.H), 10)), nil
+}
+
+func (e *PrefixEntry) UnmarshalJSON(b []byte) error {
+	v, err := strconv.ParseUint(string(b), 10, 64)
+	if err != nil {
+		return err
+	}
+	e.C, e.H = int(v>>32), uint32(v)
+	return nil
 }
 
 type Chooser struct {
